@@ -273,6 +273,27 @@ def V(variant, payload=None):
     return ("v", variant, payload)
 
 
+def _union(a, b):
+    """Small disjunction of abstract values: ("s", frozenset) with at most 4 members."""
+    sa = a[1] if a[0] == "s" else frozenset([a])
+    sb = b[1] if b[0] == "s" else frozenset([b])
+    u = sa | sb
+    if len(u) > 4:
+        return None
+    if len(u) == 1:
+        return next(iter(u))
+    return ("s", u)
+
+
+def value_set(v):
+    """Flatten an abstract value into the set of its alternatives (None = unknown)."""
+    if v is None:
+        return {None}
+    if v[0] == "s":
+        return set(v[1])
+    return {v}
+
+
 TRY_BRANCH = ("core::ops::try_trait::Try::branch",)
 FROM_RESIDUAL = ("core::ops::try_trait::FromResidual::from_residual",)
 
@@ -289,9 +310,10 @@ class Sccp:
     `call_model(call, argvals) -> value or None` models calls returning constants.
     """
 
-    def __init__(self, fn, call_model=None, stop_blocks=()):
+    def __init__(self, fn, call_model=None, stop_blocks=(), removed_edges=()):
         self.fn = fn
         self.stop_blocks = set(stop_blocks)
+        self.removed_edges = set(removed_edges)
         self.call_model = call_model
         self.mutb = _mut_borrowed_locals(fn)
         self.env_in = {}
@@ -320,7 +342,7 @@ class Sccp:
 
     @staticmethod
     def _project(v, p):
-        if v is None:
+        if v is None or v[0] == "s":
             return None
         if p == "deref":
             return v
@@ -362,6 +384,8 @@ class Sccp:
             a = self._operand(env, rv["a"])
             if a and a[0] == "i" and a[1] in (0, 1):
                 return I(1 - a[1])
+            if a and a[0] == "s" and all(x[0] == "i" and x[1] in (0, 1) for x in a[1]):
+                return ("s", frozenset(I(1 - x[1]) for x in a[1]))
             return None
         if k == "bin" and rv["op"] in ("Eq", "Ne", "Lt", "Le", "Gt", "Ge", "BitAnd", "BitOr", "BitXor"):
             a = self._operand(env, rv["a"])
@@ -374,6 +398,15 @@ class Sccp:
             return None
         if k == "discr":
             v = self._read(env, place_key(rv["place"]))
+            if v and v[0] == "s" and all(x[0] == "v" for x in v[1]):
+                ds = set()
+                for x in v[1]:
+                    for d, name in rv.get("variants", []):
+                        if name == x[1]:
+                            ds.add(I(d))
+                if len(ds) == len({x[1] for x in v[1]}):
+                    return ("s", frozenset(ds)) if len(ds) > 1 else next(iter(ds))
+                return None
             if v and v[0] == "v":
                 for d, name in rv.get("variants", []):
                     if name == v[1]:
@@ -413,7 +446,20 @@ class Sccp:
         outs = []
         if k == "switch":
             v = self._operand(env, t["op"])
-            if v is not None and v[0] == "i":
+            if v is not None and v[0] == "s" and all(x[0] == "i" for x in v[1]):
+                tg = []
+                for x in v[1]:
+                    t1 = None
+                    for val, bb in t["targets"]:
+                        if val == x[1]:
+                            t1 = bb
+                            break
+                    if t1 is None:
+                        t1 = t["otherwise"]
+                    if t1 not in tg:
+                        tg.append(t1)
+                outs = [(t1, env) for t1 in tg]
+            elif v is not None and v[0] == "i":
                 tgt = None
                 for val, bb in t["targets"]:
                     if val == v[1]:
@@ -436,6 +482,12 @@ class Sccp:
                             val = V("Continue", a[2])
                         elif a[1] in ("Err", "None"):
                             val = V("Break", None)
+                elif names & set(FROM_RESIDUAL):
+                    dty = self.fn.local_ty(t["dest"]["l"]) if not t["dest"]["p"] else ""
+                    if dty.startswith("std::option::Option<"):
+                        val = V("None", None)
+                    elif dty.startswith("std::result::Result<"):
+                        val = V("Err", None)
                 elif self.call_model is not None:
                     from .facts import Call
                     val = self.call_model(Call(self.fn, b, t), argv)
@@ -477,6 +529,8 @@ class Sccp:
             if b in self.stop_blocks:
                 continue
             for s, env in self._transfer(b, self.env_in[b]):
+                if (b, s) in self.removed_edges:
+                    continue
                 self.exec_edges.add((b, s))
                 if self._merge(s, env, b):
                     work.append(s)
@@ -487,16 +541,26 @@ class Sccp:
             self.env_in[b] = dict(env)
             return True
         old = self.env_in[b]
-        new = {k: v for k, v in old.items() if env.get(k) == v}
+        new = {}
+        for k, v in old.items():
+            w = env.get(k)
+            if w is None:
+                continue
+            if w == v:
+                new[k] = v
+            else:
+                u = _union(v, w)
+                if u is not None:
+                    new[k] = u
         if new != old:
             self.env_in[b] = new
             return True
         return b not in self.exec_blocks
 
 
-def seed_after_call(fn, call, value, call_model=None, stop_blocks=()):
+def seed_after_call(fn, call, value, call_model=None, stop_blocks=(), removed_edges=()):
     """Run SCCP assuming `call` just returned `value`."""
-    s = Sccp(fn, call_model=call_model, stop_blocks=stop_blocks)
+    s = Sccp(fn, call_model=call_model, stop_blocks=stop_blocks, removed_edges=removed_edges)
     if call.target is None:
         return s
     env = {}
